@@ -222,59 +222,72 @@ def valid (bs : Bytes) : Bool :=
   | some s => eof s
   | none => false
 
-/-! ### `compact(dst, src, escape)` as the Go loop runs it -/
+/-! ### `compact(dst, src, escape)` as the Go loop runs it
 
-/-- state of the loop: scanner, pending skip count for the bytes of an escaped U+2028/9 -/
-def compactLoop (esc : Bool) : Scan → Nat → Bytes → Bytes → Option (Scan × Bytes)
-  | s, _, [], out => some (s, out)
+The output buffer is kept reversed (newest byte first) so that appending is constant
+time; `compact` reverses it once at the end. -/
+
+/-- what `compact` writes for the byte `c` (followed by `cs`) when nothing is pending:
+the bytes, and how many following bytes are part of the same escaped character -/
+def compactEmit (esc : Bool) (c : UInt8) (cs : Bytes) : Bytes × Nat :=
+  if esc && (c = 60 || c = 62 || c = 38) then
+    ([92, 117, 48, 48, hexLower (c.toNat / 16), hexLower (c.toNat % 16)], 0)
+  else if esc && c = 0xE2 && cs.take 2 == [0x80, 0xA8] then (ascii "\\u2028", 2)
+  else if esc && c = 0xE2 && cs.take 2 == [0x80, 0xA9] then (ascii "\\u2029", 2)
+  else ([c], 0)
+
+/-- state of the loop: scanner, pending skip count for the bytes of an escaped U+2028/9,
+rest of the input, reversed output -/
+def compactLoop (esc : Bool) : Scan → Nat → Bytes → Bytes → Scan × Bytes
+  | s, _, [], out => (s, out)
   | s, skip, c :: cs, out =>
     -- what is written for this byte, before the scanner sees it
-    let (emit, skip') : Bytes × Nat :=
-      if skip > 0 then ([], skip - 1)
-      else if esc && (c = 60 || c = 62 || c = 38) then
-        ([92, 117, 48, 48, hexLower (c.toNat / 16), hexLower (c.toNat % 16)], 0)
-      else if esc && c = 0xE2 && cs.take 2 == [0x80, 0xA8] then (ascii "\\u2028", 2)
-      else if esc && c = 0xE2 && cs.take 2 == [0x80, 0xA9] then (ascii "\\u2029", 2)
-      else ([c], 0)
+    let (emit, skip') : Bytes × Nat := if skip > 0 then ([], skip - 1) else compactEmit esc c cs
     let (s', v) := step s c
-    if v = scanError then some (s', out)          -- `break`; eof() then reports the error
+    if v = scanError then (s', out)          -- `break`; eof() then reports the error
     else if v ≥ scanSkipSpace then compactLoop esc s' skip' cs out
-    else compactLoop esc s' skip' cs (out ++ emit)
+    else compactLoop esc s' skip' cs (emit.reverse ++ out)
 
 def compact (esc : Bool) (src : Bytes) : Option Bytes :=
-  match compactLoop esc Scan.init 0 src [] with
-  | some (s, out) => if eof s then some out else none
-  | none => none
+  let (s, out) := compactLoop esc Scan.init 0 src []
+  if eof s then some out.reverse else none
+
+/-- `HTMLEscape(dst, src)`: the escaping part of `compact` alone, no scanner -/
+def htmlEscape : Nat → Bytes → Bytes
+  | _, [] => []
+  | skip, c :: cs =>
+    if skip > 0 then htmlEscape (skip - 1) cs
+    else (compactEmit true c cs).1 ++ htmlEscape (compactEmit true c cs).2 cs
 
 /-! ### `Indent(dst, src, prefix = "", indent)` -/
 
 def newline (indent : Bytes) (depth : Nat) : Bytes :=
   10 :: (List.replicate depth indent).flatten
 
-def indentLoop (ind : Bytes) : Scan → Bool → Nat → Bytes → Bytes → Option (Scan × Bytes)
-  | s, _, _, [], out => some (s, out)
+/-- reversed output, as in `compactLoop` -/
+def indentLoop (ind : Bytes) : Scan → Bool → Nat → Bytes → Bytes → Scan × Bytes
+  | s, _, _, [], out => (s, out)
   | s, need, depth, c :: cs, out =>
     let (s', v) := step s c
     if v = scanSkipSpace then indentLoop ind s' need depth cs out
-    else if v = scanError then some (s', out)
+    else if v = scanError then (s', out)
     else
       let (need1, depth1, out1) : Bool × Nat × Bytes :=
         if need && v ≠ scanEndObject && v ≠ scanEndArray then
-          (false, depth + 1, out ++ newline ind (depth + 1))
+          (false, depth + 1, (newline ind (depth + 1)).reverse ++ out)
         else (need, depth, out)
-      if v = scanContinue then indentLoop ind s' need1 depth1 cs (out1 ++ [c])
-      else if c = 123 ∨ c = 91 then indentLoop ind s' true depth1 cs (out1 ++ [c])
-      else if c = 44 then indentLoop ind s' need1 depth1 cs (out1 ++ [c] ++ newline ind depth1)
-      else if c = 58 then indentLoop ind s' need1 depth1 cs (out1 ++ [c, 32])
+      if v = scanContinue then indentLoop ind s' need1 depth1 cs (c :: out1)
+      else if c = 123 ∨ c = 91 then indentLoop ind s' true depth1 cs (c :: out1)
+      else if c = 44 then indentLoop ind s' need1 depth1 cs ((newline ind depth1).reverse ++ c :: out1)
+      else if c = 58 then indentLoop ind s' need1 depth1 cs (32 :: c :: out1)
       else if c = 125 ∨ c = 93 then
-        if need1 then indentLoop ind s' false depth1 cs (out1 ++ [c])
-        else indentLoop ind s' need1 (depth1 - 1) cs (out1 ++ newline ind (depth1 - 1) ++ [c])
-      else indentLoop ind s' need1 depth1 cs (out1 ++ [c])
+        if need1 then indentLoop ind s' false depth1 cs (c :: out1)
+        else indentLoop ind s' need1 (depth1 - 1) cs (c :: (newline ind (depth1 - 1)).reverse ++ out1)
+      else indentLoop ind s' need1 depth1 cs (c :: out1)
 
 def indent (ind : Bytes) (src : Bytes) : Option Bytes :=
-  match indentLoop ind Scan.init false 0 src [] with
-  | some (s, out) => if eof s then some out else none
-  | none => none
+  let (s, out) := indentLoop ind Scan.init false 0 src []
+  if eof s then some out.reverse else none
 
 end Scanner
 end JP
